@@ -264,24 +264,31 @@ def check_exactness_of_integer_floats(ctx, prog, tag, prefix="C08.N7"):
     for v in ("U64", "I64", "U128", "I128"):
         reg = aregs.get(v, set())
         rts, bounds = set(), set()
-        for bb in sorted(reg):
-            if af.term(bb)["k"] != "switch":
+        # the comparisons are found where they are computed; their result must decide a branch of the arm, directly
+        # (`if rv < MAX && rv as T == x`) or through a flag (`let is_exact = ..; if lossy || is_exact`)
+        decided = set()
+        for sb in sorted(reg):
+            if af.term(sb)["k"] == "switch":
+                for o in flow.origins(af, af.term(sb)["discr"]):
+                    if o.kind == "bin":
+                        decided.add((o.bb, o.idx))
+
+        def _is_f2i(op_):
+            p_ = op_place(op_)
+            if p_ is None or "p" in p_:
+                return False
+            return any(d.kind == "stmt" and d.rv["k"] == "cast" and d.rv["kind"] == "FloatToInt"
+                       for d in flow.whole_defs(af, p_["l"]))
+        for bb, i, st in af.all_stmts():
+            rv_ = st.get("rv", {})
+            if bb not in reg or st["k"] != "assign" or rv_.get("k") != "bin" or (bb, i) not in decided:
                 continue
-            cd = flow.cond_of(af, bb)
-            if cd.kind != "bin":
-                continue
-            if cd.rv["op"] in ("Eq", "Ne") and cd.rv.get("ty") in ("u64", "i64", "u128", "i128"):
-                def _is_f2i(op_):
-                    p_ = op_place(op_)
-                    if p_ is None or "p" in p_:
-                        return False
-                    return any(d.kind == "stmt" and d.rv["k"] == "cast" and d.rv["kind"] == "FloatToInt"
-                               for d in flow.whole_defs(af, p_["l"]))
-                if _is_f2i(cd.rv["a"]) or _is_f2i(cd.rv["b"]):
+            if rv_["op"] in ("Eq", "Ne") and rv_.get("ty") in ("u64", "i64", "u128", "i128"):
+                if _is_f2i(rv_["a"]) or _is_f2i(rv_["b"]):
                     rts.add(bb)
-            if cd.rv["op"] in ("Lt", "Le", "Gt", "Ge") and cd.rv.get("ty") == "f64":
+            if rv_["op"] in ("Lt", "Le", "Gt", "Ge") and rv_.get("ty") == "f64":
                 for x in ("a", "b"):
-                    for o in flow.origins(af, cd.rv[x]):
+                    for o in flow.origins(af, rv_[x]):
                         if o.kind == "const" and str(o.const.get("named", "")).endswith("::MAX"):
                             bounds.add(bb)
         nones = {bb for bb, i, st in af.all_stmts() if bb in reg and st["k"] == "assign" and st["place"] == {"l": 0}
@@ -311,7 +318,8 @@ def run(ctx):
         tag = "" if cname == "MAX" else "[%s]" % cname
         # ---- N1
         for op, want in INT_TABLE.items():
-            f = prog.fn(OPS + op)
+            # read through private helpers an arm may have been moved into (`int_rem_euclid(a, b)`)
+            f = prog.view(OPS + op, keep=None)
             regs = coerce_arms(prog, f)
             ctx.need("I128" in regs and "F64" in regs, "C08.N1: %s has no I128/F64 arms on CoerceResult" % op)
             calls = [c for c in arms.calls_in(f, regs["I128"]) if c.name.startswith("core::num::<impl i128>::")]
@@ -355,6 +363,18 @@ def run(ctx):
                             t_ = f.term(sb_)
                             p_ = op_place(t_.get("discr", {})) if t_["k"] == "switch" else None
                             if p_ is None:
+                                continue
+                            # `if divisor == -1 { Some(0) } else { a.checked_rem_euclid(divisor) }`
+                            cd_ = flow.cond_of(f, sb_)
+                            side_ = flow.bool_true_labels(labels_)
+                            if cd_.kind == "bin" and cd_.rv["op"] in ("Eq", "Ne") and side_ is not None:
+                                from ..facts import const_int as _ci
+                                for x_, y_ in ((cd_.rv["a"], cd_.rv["b"]), (cd_.rv["b"], cd_.rv["a"])):
+                                    if "c" in y_ and "c" not in x_ and _ci(y_) == -1 and \
+                                            ({o.key() for o in flow.origins(f, x_)} & div_):
+                                        is_minus1 = ((cd_.rv["op"] == "Eq") != cd_.neg) == side_
+                                        if not is_minus1:
+                                            handled = True
                                 continue
                             if not ({o.key() for o in flow.origins(f, t_["discr"])} & div_):
                                 continue
